@@ -272,7 +272,7 @@ func generateWrappers(
 		upVerrorIndex := upVmap[getTypeCode(errorType)]
 		var memoized cacherFunc
 		if fm.memoized {
-			memoized = generateCache(fm.id, fv, len(fm.flows[inputParams]), fm.mapKeyCheck)
+			memoized = generateCache(fm.id, fv, len(fm.flows[inputParams]), memoizeKeyCheck(fm))
 		}
 		fm.wrapFallibleInjector = func(v valueCollection) bool {
 			in := inMap(v)
@@ -307,7 +307,7 @@ func generateWrappers(
 			return err
 		}
 		if fm.memoized {
-			memoized := generateCache(fm.id, fv, len(fm.flows[inputParams]), fm.mapKeyCheck)
+			memoized := generateCache(fm.id, fv, len(fm.flows[inputParams]), memoizeKeyCheck(fm))
 			fm.wrapFallibleInjector = func(v valueCollection) bool {
 				in := inMap(v)
 				outMap(v, memoized(in))
